@@ -29,6 +29,48 @@ def names(rng, tier):
     return out
 
 
+def pair_checks(ctx):
+    """the same input under both settings: generated API objects (L1) and generated packages (real runs)"""
+    import corpus
+    import gen_pkg
+    import implrun
+    import oracles
+    vio = []
+    n = 0
+    items = corpus.get_l1(ctx["seed"], ctx["tier"])
+    by_seed: dict = {}
+    for it in items:
+        by_seed.setdefault(it["api_seed"], {})[it["nc"]] = it
+    for seed, pair in by_seed.items():
+        if False in pair and True in pair and not pair[False]["impl"].get("exc") and not pair[True]["impl"].get("exc"):
+            n += 1
+            for v in oracles.names_relation(pair[False]["impl"]["stubs"], pair[True]["impl"]["stubs"]):
+                vio.append({**v, "l1_api_seed": seed})
+    rng = random.Random(ctx["seed"] + 909)
+    npk = 6 if ctx["tier"] == "quick" else 50
+    base = implrun.scratch_dir("c09")
+    jobs, pk = [], []
+    import findings
+    for i in range(npk):
+        p = findings.enum_name_not_converted()[0] if i == 0 else gen_pkg.gen_package(rng, i, style="plaintext", nmods=2, keywords=True)
+        files = gen_pkg.package_files(p)
+        root = base / f"t{i}"
+        implrun.write_tree(root, files)
+        for nc in (False, True):
+            jobs.append({"src": str(root / p.name), "out": str(base / f"o{i}_{int(nc)}"), "nc": nc, "encode_api": False})
+        pk.append((p, files))
+    ans = implrun.run_jobs(jobs)
+    implrun.cleanup()
+    for i, (p, files) in enumerate(pk):
+        a0, a1 = ans[2 * i], ans[2 * i + 1]
+        if a0.get("exc") or a1.get("exc"):
+            continue
+        n += 1
+        for v in oracles.names_relation(a0["stubs"], a1["stubs"]):
+            vio.append({**v, "package": p.name, "files": files if len(vio) < 3 else None})
+    return vio, n
+
+
 def run(ctx):
     rng = random.Random(ctx["seed"] + 9)
     ns = names(rng, ctx["tier"])
@@ -61,16 +103,22 @@ def run(ctx):
                 violations.append({"what": "class name does not start in upper case", "input": [n, c], "observed": conv, "finding": None})
         if (esc != conv) != (conv in KEYWORDS) or (esc != conv and esc != f"`{conv}`"):
             violations.append({"what": "keyword escaping wrong", "input": [n, nc, c], "observed": esc, "finding": None})
+    from props.common import corpus_check
+    back = corpus_check(ctx, "C09", None)
+    disagreements += back["disagreements"]
+    pv, pn = pair_checks(ctx)
+    violations += pv
     return {
-        "evaluations": len(cases),
+        "evaluations": len(cases) + back["evaluations"] + pn,
         "distinct_nontrivial": len(nontriv),
         "rule": "all strings of length <= %d over {a,B,1,_}, the 33 keywords and decorated variants, random identifiers; each under "
-                "both settings and both name classes; non-trivial when the name contains '_' or an upper-case letter; distinct by name"
+                "both settings and both name classes; plus the emission sites through the back-end model on packages and API objects, and the same "
+                "input rendered under both settings (annotation iff renamed, same recoverable Python names); non-trivial when the name contains '_' or an upper-case letter; distinct by name"
                 % (5 if ctx["tier"] == "quick" else 7),
         "samples": [meta[777], meta[-1], ["__get__function___name__", _convert_name_to_convention("__get__function___name__", NamingConvention.SAFE_DS)]],
         "disagreements": disagreements,
         "violations": violations,
-        "stats": {"names": len(ns)},
+        "stats": {"names": len(ns), "on_off_pairs": pn, **back["stats"]},
         "assumptions": ["identifiers are ASCII ([A-Za-z0-9_] as in the property's quantifier); str.upper is modelled on ASCII"],
         "exhaustive": True,
     }
